@@ -233,8 +233,10 @@ pub fn iter2() -> std::vec::IntoIter<i64> {
 pub fn iter_l() -> std::vec::IntoIter<i64> {
     (101i64..=124).collect::<Vec<i64>>().into_iter()
 }
-/// operand shape "call": a call expression whose value is the callback
-pub fn ret<F>(f: F) -> F {
+/// operand shape "call": a call expression whose value is the callback (its evaluation is logged: C01, where and how
+/// often an operand expression is evaluated)
+pub fn ret<F>(site: u32, f: F) -> F {
+    call(site, "opnd", 0i64.canon());
     f
 }
 /// operand shapes "field" / "method": a field access / method call whose value is the callback
@@ -246,11 +248,13 @@ impl<F> Holder<F> {
         self.f
     }
 }
-pub fn hold<F>(f: F) -> Holder<F> {
+pub fn hold<F>(site: u32, f: F) -> Holder<F> {
+    call(site, "opnd", 0i64.canon());
     Holder { f }
 }
 /// operand shape "ifelse": an `if` expression whose value is the callback
-pub fn yes() -> bool {
+pub fn yes(site: u32) -> bool {
+    call(site, "opnd", 0i64.canon());
     true
 }
 /// nesting positions "init" / "opnd": the expression written in front of a nested macro invocation; nothing of the
